@@ -494,10 +494,10 @@ static void do_yield(int kind) {  // 0 polite (spinning), 1 idle (would block), 
   t->yielded = 0;
 }
 
-static struct { uintptr_t lo, hi; } focus_r[8];
+static struct { uintptr_t lo, hi; } focus_r[24];
 static int nfocus;
 void fmc_focus(void* p, unsigned long n) {
-  if (nfocus < 8) { focus_r[nfocus].lo = (uintptr_t)p; focus_r[nfocus].hi = (uintptr_t)p + n; nfocus++; }
+  if (nfocus < 24) { focus_r[nfocus].lo = (uintptr_t)p; focus_r[nfocus].hi = (uintptr_t)p + n; nfocus++; }
 }
 static inline int in_focus(void* a, int sz) {
   uintptr_t x = (uintptr_t)a;
@@ -538,7 +538,10 @@ static void sched_point(void* addr, int sz, int w, int always, void* pc, int flu
   if (fmc_tracing > 1) fmc_rawlog("[%lu] T%d %s %p sz=%d pc=%p\n", (unsigned long)TR->steps, me, w ? "W" : "R", addr, sz, pc);
   if (always == 2) always = SH->atomicfilter ? 0 : 1;
   int in_S = always || !fmc_use_site_filter || SH->nofilter || SH->site_shared[sh];
-  if (SH->focus && nfocus && !observes_env && !(addr && in_focus(addr, sz))) in_S = 0;
+  // focused runs: pre-emption only before operations on the declared object - and before the
+  // operation that is about to force a delayed store out of this thread's buffer (the last moment
+  // at which the others can still run without seeing it)
+  if (SH->focus && nfocus && !observes_env && !(addr && in_focus(addr, sz)) && !(fmc_tso && flush && t->sb.n)) in_S = 0;
   // a buffered store may be committed early at any later callback of its owner; it is
   // committed at the latest when the owner is about to execute a flushing operation,
   // i.e. AFTER the scheduling decision below (others may run while it is still buffered)
